@@ -435,6 +435,25 @@ def r1210(P, rep):
     _import(rep, 'R12.10', sub, 'stage 2 would not be the same program where chibicc\'s own units rely on this: ')
 
 
+def r1211(P, rep, tier):
+    """chibicc's sources nest loops, switches, break and continue freely (e.g. a do-while followed by `continue` in preprocess2) and use every
+    integer operator on 64-bit operands in the constant folder: stage 2 is the same program only if statement contexts and operator typing are
+    right. C03's context/skeleton rules and the typing rules of C01, re-used"""
+    from ..report import Report, reissue
+    from ..lib_types import r_common_type, r_add_type
+    from . import c03
+    rep.rule('R12.11', 'self-compilation: break/continue/switch contexts are saved and restored by every statement form, each form is lowered to an execution of the abstract machine, scopes pair up (same obligations as C03 R03.1, R03.3, R03.6, R03.7)', floor=60)
+    sub = Report('C03')
+    c03.run(P, sub, tier)
+    reissue(rep, 'R12.11', sub, 'the self-compiled compiler would take another control path where its own sources use this form: ', keep=lambda o: o['key'].split(':', 1)[0] in ('R03.1', 'R03.3', 'R03.6', 'R03.7'))
+    rep.rule('R12.12', 'self-compilation: every operator gets the C11 result type and operand conversions for every pair of integer types (same obligations as C01 R01.1, R01.2); the constant folder of the self-compiled compiler computes in the types add_type assigns', floor=300)
+    sub = Report('C01')
+    sub.rule('R01.1', '', 1); sub.rule('R01.2', '', 1)
+    r_common_type(P, sub, 'R01.1', 'int')
+    r_add_type(P, sub, 'R01.2', 'int')
+    reissue(rep, 'R12.12', sub, 'the self-compiled compiler would compute in another type than the reference build: ')
+
+
 # ------------------------------------------------------------------------ run ---
 def run(P, rep, tier):
     rep.explanation = ('Determinism clause of C12 only: which functions may obtain a value that differs from run to run (time, pid, random, environment, '
@@ -456,6 +475,7 @@ def run(P, rep, tier):
     r128(P, rep)
     r129(P, rep, tier)
     r1210(P, rep)
+    r1211(P, rep, tier)
     cg = L.CallGraph(P)
     units = [P.unit(n) for n in P.unit_names]
     # ---------------- R12.1
